@@ -19,7 +19,6 @@ require (
 	github.com/grpc-ecosystem/go-grpc-middleware v1.4.0 // indirect
 	github.com/grpc-ecosystem/go-grpc-prometheus v1.2.0 // indirect
 	github.com/grpc-ecosystem/grpc-opentracing v0.0.0-20180507213350-8e809c8a8645 // indirect
-	github.com/miscreant/miscreant.go v0.0.0-20200214223636-26d376326b75 // indirect
 	github.com/munnerz/goautoneg v0.0.0-20191010083416-a7dc8b61c822 // indirect
 	github.com/opentracing/opentracing-go v1.2.0 // indirect
 	github.com/pelletier/go-toml/v2 v2.2.3 // indirect
@@ -49,4 +48,8 @@ require (
 )
 
 replace example.com/scion-time => /repo
-require github.com/anishathalye/porcupine v1.3.0
+
+require (
+	github.com/anishathalye/porcupine v1.3.0
+	github.com/miscreant/miscreant.go v0.0.0-20200214223636-26d376326b75
+)
